@@ -208,8 +208,42 @@ class Lib:
         r = self.ext.global_name(st, name, imports)
         if r is not None:
             return r
+        r = self.function_reference(st, name)
+        if r is not None:
+            return r
         # module-level / class names of the module under verification
         return VModule("local:" + name)
+
+    def function_reference(self, st, name):
+        """`name` used as a value where the sidecar declares a `funcref` for
+        it: the function object is the 0-ary spec function whose defining fact
+        was generated from the function's verified contract.  Only when the
+        module binds the name exactly once, by a plain undecorated `def` at
+        top level (otherwise the name need not denote that function)."""
+        eng = self.eng
+        const = eng.reg.funcrefs.get((eng.cur.module, name))
+        if const is None:
+            return None
+        from . import source as S
+        tree, _, _ = S.load_module(eng.repo, eng.cur.module)
+        binders = []
+        for n in ast.walk(tree):
+            if isinstance(n, (ast.FunctionDef, ast.AsyncFunctionDef,
+                              ast.ClassDef)) and n.name == name:
+                binders.append(n)
+            elif isinstance(n, ast.Name) and n.id == name and \
+                    not isinstance(n.ctx, ast.Load):
+                binders.append(n)
+            elif isinstance(n, ast.alias) and \
+                    (n.asname or n.name.split(".")[0]) == name:
+                binders.append(n)
+            elif isinstance(n, ast.Global) and name in n.names:
+                binders.append(n)
+        if len(binders) != 1 or not isinstance(binders[0], ast.FunctionDef) \
+                or binders[0] not in tree.body or binders[0].decorator_list:
+            raise self.E.Unsupported(
+                f"{name} is not bound exactly once by a plain top-level def")
+        return VFunc(t=eng.ufunc(const)())
 
     def dotted_name(self, node, imports, st=None):
         parts = []
